@@ -33,6 +33,8 @@ MALFORMED = [
     ("base unit with scale", "scbase = 3 * [scdim]"),
     ("alias of unknown unit", "@alias nosuchunit = nsu"),
     ("invalid prefix name", "2p- = 10"),
+    ("modifier without a value", "degQ = kelvin; offset:"),
+    ("symbol with a blank", "blsym = 3 * metre = bl sym"),
 ]
 
 
